@@ -134,6 +134,15 @@ def run(ctx):
             m.update(kind="history", alphabet=alpha, first=[k], depth=depth, watchdog_s=3000,
                      label="%s/%s%s history subtree %s depth %d" % (g, w, "/nondefault" if o else "", names[k], depth))
             hist_members.append(m)
+        # the same subtrees with geometry() called on the live mesh in every state (the GUI's
+        # write - regrid - write loop): quick on the first start state, thorough on all
+        if ctx.tier != "quick" or (g, w, o) == st[0]:
+            for k in range(len(alpha)):
+                m = lattice.mk(g, False, wall=w, opt=dict(o) or None, tags=["history"])
+                m.update(kind="history", alphabet=alpha, first=[k], depth=depth, watchdog_s=3000, geometry_each=True,
+                         label="%s/%s%s history subtree %s depth %d, geometry() in every state" % (
+                             g, w, "/nondefault" if o else "", names[k], depth))
+                hist_members.append(m)
         scratch = [lattice.mk(g, False, wall=w, opt=dict(o) or None, non=s_) if s_ else bm for s_ in scratch_settings]
         plans.append((g, w + ("/nondefault" if o else ""), ba, alpha, names, hist_members, scratch))
         members += hist_members + scratch
@@ -160,6 +169,8 @@ def run(ctx):
                     if root_checked:
                         continue
                     root_checked = True
+                if hm.get("geometry_each"):
+                    stats["states_with_geometry_in_every_state"] = stats.get("states_with_geometry_in_every_state", 0) + 1
                 hn = [names[k] for k in hist]
                 states += 1
                 transitions += 1 if hist else 0
@@ -180,7 +191,8 @@ def run(ctx):
                 if state["user_options"] != first["user_options"] or state["eq_user_options"] != first["eq_user_options"]:
                     ctx.violation("%s | redistributePoints changed settings other than the non-orthogonal ones" % g,
                                   dict(start=label, history=hn), replay=dict(start=label, history=hn))
-                compare_state(ctx, label, hn, state, sa, ba, stats, first)
+                compare_state(ctx, label + (" [geometry() in every state]" if hm.get("geometry_each") else ""),
+                              hn, state, sa, ba, stats, first)
                 validated += 1
             ctx.sample(dict(start=label, subtree=hm["label"], histories=len(H)), limit=6)
     ctx.set("states", states)
@@ -193,7 +205,7 @@ def run(ctx):
         ctx.set(k, v)
     ctx.set("exhaustive", True)
     ctx.assume("every transition calls the real redistributePoints + calculateRZ on a dill snapshot of the live "
-               "mesh (caches included); geometry is computed on a copy of each state; reference = mesh built "
+               "mesh (caches included); geometry is computed on a copy of each state, and in a second pass on the live mesh in every state (write - regrid - write); reference = mesh built "
                "from scratch with the state's final non-orthogonal settings in a fresh process")
 
 
